@@ -144,6 +144,12 @@ def check(repo, col, tier):
     col.rule("R-C01-ends", "parents attach at their last, children at their first compartment", 4)
     col.rule("R-C01-scheme", "solver formulas and solver_kwargs", 10)
     col.rule("R-C01-refuse", "unsupported models / unknown solver names are refused", 3)
+    col.rule("R-C01-conductances", "axial conductances entering the matrix: roles, textbook form, branch-point weights", 6)
+    col.rule("R-C01-merge", "the level schedule of a network contains every level of every cell", 2)
+    from . import cable
+    cable.check_axial(repo, col, {"roles": "R-C01-conductances", "oracle": "R-C01-conductances",
+                                  "kirchhoff": "R-C01-conductances", "cap": "R-C01-conductances"})
+    _merge(repo, col)
     cap = _assembly_jaxley(repo, col)
     _assembly_sparse(repo, col)
     _explicit(repo, col)
@@ -312,6 +318,54 @@ def _assembly_sparse(repo, col):
     ok = r is not None and T.find(r, lambda x: x.op == "sub" and x.args[1].op == "param" and x.args[1].name == "internal_node_inds") is not None
     col.check(ok, R, fi, "solution read back at internal_node_inds", "branch-point voltages are dropped",
               f"returns {r.short() if r else None}", node=fi.node)
+
+
+def _merge(repo, col):
+    """merge_cells: per-cell lists of levels (lengths L_c) are merged level by level; the merged
+    schedule must have max_c L_c levels and contain level i of every cell that has one."""
+    R = "R-C01-merge"
+    fi = repo.func("jaxley/utils/cell_utils.py", "merge_cells")
+    ex = idxm.expander(repo, fi)
+    r = ex.returns[-1] if ex.returns else None
+    if r is None:
+        raise AnalysisError("merge_cells has no return")
+    # idiom 1: comprehension / loop over zip(*ps)  -> min length (truncates)
+    zipstar = T.find(r, lambda x: x.op == "call" and x.name == "zip" and any(a.op == "star" for a in x.args))
+    longest = T.find(r, lambda x: (x.op in ("call", "mcall")) and x.name == "zip_longest")
+    rng = None
+    for n in walk_no_nested(fi.node):
+        if isinstance(n, ast.For) and isinstance(n.iter, ast.Call) and unparse(n.iter.func) == "range":
+            body_txt = unparse(n)
+            if "append" in body_txt and "concatenate" in body_txt:
+                rng = n
+    if zipstar is not None and longest is None:
+        col.bad(R, fi, "merge_cells: number of merged levels",
+                "the per-cell level lists are merged with zip(*...), which stops at the shallowest cell: the deeper levels "
+                "of deeper cells are dropped from the schedule and their branches are never solved", node=zipstar.node or fi.node)
+        return
+    if rng is not None:
+        bound = ex.term(rng.iter.args[-1])
+        is_max = bound.op == "call" and bound.name == "max" and T.find(bound, lambda x: x.op == "call" and x.name == "len") is not None
+        is_min = bound.op == "call" and bound.name == "min"
+        col.add(R, fi, "merge_cells: number of merged levels", "DISCHARGED" if is_max else ("VIOLATED" if is_min else "UNDECIDED"),
+                "range(max number of levels over the cells)" if is_max else
+                f"the merge loop runs over {bound.short(60)} levels; it must cover the deepest cell", node=rng)
+        # inner guard: a cell contributes level i iff it has one
+        guards = [n for n in ast.walk(rng) if isinstance(n, ast.If)]
+        ok = any(isinstance(g.test, ast.Compare) and "len(" in unparse(g.test) and isinstance(g.test.ops[0], (ast.Gt, ast.Lt, ast.GtE, ast.LtE))
+                 for g in guards)
+        tv = rng.target.id if isinstance(rng.target, ast.Name) else "i"
+        gtxt = [unparse(g.test).replace(" ", "") for g in guards]
+        good = any(t in (f"len(p)>{tv}", f"{tv}<len(p)") for t in gtxt)
+        col.add(R, fi, "merge_cells: a cell contributes level i iff it has a level i",
+                "DISCHARGED" if good else ("UNDECIDED" if ok or not guards else "VIOLATED"),
+                f"guard {gtxt}" if good else f"guards {gtxt} do not select the cells with more than i levels", node=rng)
+        return
+    if longest is not None:
+        col.ok(R, fi, "merge_cells: number of merged levels", "zip_longest covers the deepest cell", node=fi.node)
+        col.unk(R, fi, "merge_cells: a cell contributes level i iff it has a level i", "fill values of zip_longest not analysed", node=fi.node)
+        return
+    col.unk(R, fi, "merge_cells: number of merged levels", "merge idiom not recognised", node=fi.node)
 
 
 def _dimension(repo, col):
